@@ -88,6 +88,7 @@ type File struct {
 	Path    string   `json:"path"`
 	Extends string   `json:"extends,omitempty"`
 	Imports []string `json:"imports,omitempty"`
+	HdrWS   []string `json:"hdr_ws,omitempty"` // whitespace printed after the i-th header clause (extends first, then imports)
 	Body    []*Node  `json:"body"`
 }
 
